@@ -137,8 +137,14 @@ def gen_family(rng, hashseeds, tier):
                 m['poison'] = {'mode': 1, 'seed': rng.randrange(1, 2 ** 63), 'name': 'stream'}
             i += 1
             members.append(m)
+    # a run that is killed at a seeded point and started again in the same directory is a "repeated fresh run" too:
+    # its second process must write what every other member writes
+    rk = copy.deepcopy(members[rng.randrange(len(members))])
+    rk['phases'] = [{'crash': [rng.choice(['batch-return', 'closed-w:ranking_checkpoint_tmp.tsv', 'write:ranking_checkpoint_tmp.tsv', 'sleep', 'chunk',
+                                           'opened-w:pairwise_ranks.tsv', 'write:pairwise_ranks.tsv', 'remove']), rng.choice([1, 1, 2, 3])]}, {}]
+    members.append(rk)
     # identical repeat of one member (fresh process, same hash seed, same seed)
-    rep_of = rng.randrange(len(members))
+    rep_of = rng.randrange(len(members) - 1)
     members.append(copy.deepcopy(members[rep_of]))
     return {'base': base, 'flags': flags, 'members': members, 'repeat_of': rep_of}
 
@@ -179,7 +185,15 @@ def outcome(v):
 
 
 def member_summary(m):
-    return {'num_threads': m['cli']['num_threads'], 'service_mode': m['service_mode'], 'seed': m['seed'], 'hashseed': m['hashseed'], 'poison': (m.get('poison') or {}).get('name')}
+    out = {'num_threads': m['cli']['num_threads'], 'service_mode': m['service_mode'], 'seed': m['seed'], 'hashseed': m['hashseed'], 'poison': (m.get('poison') or {}).get('name')}
+    if m.get('phases'):
+        out['killed_at_then_restarted'] = m['phases'][0].get('crash')
+    return out
+
+
+def final_phase(r):
+    """The process whose output counts: the only one, or the restarted one after a kill."""
+    return pipe_common.phase_values(r)[-1]
 
 
 def run_pair(pool, a, b):
@@ -187,7 +201,7 @@ def run_pair(pool, a, b):
     vals = []
     for r in rs:
         try:
-            ph = pipe_common.phase_values(r)[0]
+            ph = final_phase(r)
         except pipe_common.Harness:
             return None
         if ph['proc']['status'] != 'returned':
@@ -211,7 +225,7 @@ def shrink_pair(pool, a, b, cls, wall=45.0):
         return va.get('digest') != vb.get('digest') or va.get('files') != vb.get('files')
     cur_a, cur_b = a, b
     # isolate the deciding dimension: make b equal to a in every member-specific knob that is not needed
-    if cls in ('ranks-differ', 'outcome-differs'):
+    if cls in ('ranks-differ', 'outcome-differs') and not (cur_a.get('phases') or cur_b.get('phases')):
         for knob in ('poison', 'seed', 'service_mode', 'num_threads', 'hashseed'):
             nb = copy.deepcopy(cur_b)
             if knob == 'num_threads':
@@ -247,6 +261,10 @@ def shrink_pair(pool, a, b, cls, wall=45.0):
                 cb['cli']['num_threads'] = cur_b['cli']['num_threads']
             for k in ('service_mode', 'seed', 'hashseed'):
                 cb[k] = cur_b.get(k)
+            if cur_b.get('phases'):
+                cb['phases'] = copy.deepcopy(cur_b['phases'])
+            else:
+                cb.pop('phases', None)
             if 'poison' in cur_b:
                 cb['poison'] = cur_b['poison']
             else:
@@ -263,7 +281,7 @@ def shrink_pair(pool, a, b, cls, wall=45.0):
             vals = []
             for r in rs[2 * k:2 * k + 2]:
                 try:
-                    ph = pipe_common.phase_values(r)[0]
+                    ph = final_phase(r)
                     vals.append(ph['proc']['value'] if ph['proc']['status'] == 'returned' else None)
                 except pipe_common.Harness:
                     vals.append(None)
@@ -280,7 +298,7 @@ def shrink_pair(pool, a, b, cls, wall=45.0):
 
 RULE = ('family = one generated workload (CSV + arguments; 0-3 of: focus set, multi-value expansion, sub-features, interaction order 2/3, 3MR, noise controls, binding cap, stratified '
         'sub-sampling, transformers on an ob-csv source, pairwise mode) executed as 9 (quick) / 19 (thorough) simulated processes: pool sizes from {1,2,3,4,8,16} x service-time regimes '
-        '{instant, ms, seconds, mixed, one stalled worker, reversed completion} x hash seeds rotated over the zygotes x 25% poison allocator, plus one identical repeat.  Oracle: equal multisets of '
+        '{instant, ms, seconds, mixed, one stalled worker, reversed completion} x hash seeds rotated over the zygotes x 25% poison allocator, plus one member that is killed at a seeded point and restarted in the same directory, plus one identical repeat.  Oracle: equal multisets of '
         '(FeatureA, FeatureB, repr(Score)) rows across all members; the repeat must have the identical trace digest and byte-identical output files.  '
         'distinct_nontrivial = distinct (completion-order, chunk->worker) interleaving hashes over all members; families with >= 2 different interleavings are counted in probes.')
 
@@ -317,7 +335,13 @@ def run(args):
             values = []
             fam_vio = None
             for m, r in zip(f['members'], rs):
-                phs = pipe_common.phase_values(r)
+                phs = [final_phase(r)]
+                if m.get('phases'):
+                    first = pipe_common.phase_values(r)[0]['proc']
+                    if first['status'] == 'returned' and first['value'].get('status') == 'crashed':
+                        rep.add_counts(rep.fault_counts, {'restart_dirty_disk': 1, 'crash@' + str(m['phases'][0]['crash'][0]).split(':')[0]: 1})
+                    else:
+                        rep.add_counts(rep.probes, {'crash_point_not_reached(rerun in used directory)': 1})
                 vio, other, harness = pipe_common.classify_phase('C09', m, phs[0])
                 if harness:
                     raise common.HarnessError(harness + ' spec=' + json.dumps(pipe_common.spec_summary(m), default=repr)[:800])
